@@ -120,19 +120,98 @@ def srcStep (st : SrcState) (s : Bytes) : SrcState × Nat :=
     else if q != .backtick && (b == 10 || b == 13) then (.code, 1)   -- unterminated literal ends at the line end
     else (st, 1)
 
+/-! ### The full source lexer: regular-expression literals, `${…}` substitutions, HTML-like comments
+
+`srcStep` above is what templ's script parser implements (quotes, `//` and `/* */` comments, escapes). JavaScript source
+has three more constructs that change where a string literal begins or ends; the specification tracks them so that
+a `{{ v }}` the parser misplaces because of them is REPORTED (they are recorded as known findings) instead of being
+silently outside the claim. -/
+
+inductive Mode
+  | code | str (q : Quote) | lineComment | blockComment
+  | regex (inClass : Bool)
+deriving DecidableEq, Repr
+
+structure Src where
+  mode : Mode := .code
+  /-- brace depth inside each enclosing `${ … }` substitution, innermost first -/
+  interp : List Nat := []
+  /-- last significant byte seen in code (none at the start): decides whether `/` starts a regular expression -/
+  prev : Option UInt8 := none
+  sawRegex : Bool := false
+  sawInterp : Bool := false
+  sawHtmlComment : Bool := false
+deriving Repr
+
+/-- `/` starts a regular-expression literal where an expression cannot have just ended (the usual lexer rule, by the
+    previous significant byte; keywords such as `return` are not recognised — there `/` is read as division). -/
+def regexAllowed (prev : Option UInt8) : Bool :=
+  match prev with
+  | none => true
+  | some b => [40, 44, 61, 58, 91, 33, 38, 124, 63, 123, 125, 59, 43, 45, 42, 37, 60, 62, 126, 94].contains b
+
+def isSpaceByte (b : UInt8) : Bool := b == 32 || b == 9 || b == 10 || b == 13
+
+def step2 (st : Src) (s : Bytes) : Src × Nat :=
+  match st.mode, s with
+  | _, [] => (st, 1)
+  | .code, 39 :: _ => ({ st with mode := .str .single }, 1)
+  | .code, 34 :: _ => ({ st with mode := .str .double }, 1)
+  | .code, 96 :: _ => ({ st with mode := .str .backtick }, 1)
+  | .code, 47 :: 47 :: _ => ({ st with mode := .lineComment }, 2)
+  | .code, 47 :: 42 :: _ => ({ st with mode := .blockComment }, 2)
+  | .code, 60 :: 33 :: 45 :: 45 :: _ => ({ st with mode := .lineComment, sawHtmlComment := true }, 4)   -- `<!--` (Annex B)
+  | .code, 47 :: _ =>
+    if regexAllowed st.prev then ({ st with mode := .regex false, sawRegex := true }, 1)
+    else ({ st with prev := some 47 }, 1)
+  | .code, 123 :: _ =>
+    (match st.interp with
+     | d :: rest => { st with interp := (d + 1) :: rest, prev := some 123 }
+     | [] => { st with prev := some 123 }, 1)
+  | .code, 125 :: _ =>
+    (match st.interp with
+     | 0 :: rest => { st with interp := rest, mode := .str .backtick }      -- end of the substitution: back in the template
+     | (d + 1) :: rest => { st with interp := d :: rest, prev := some 125 }
+     | [] => { st with prev := some 125 }, 1)
+  | .code, b :: _ => (if isSpaceByte b then st else { st with prev := some b }, 1)
+  | .lineComment, b :: _ => if b == 10 || b == 13 then ({ st with mode := .code }, 1) else (st, 1)
+  | .blockComment, 42 :: 47 :: _ => ({ st with mode := .code }, 2)
+  | .blockComment, _ => (st, 1)
+  | .regex _, 92 :: _ :: _ => (st, 2)
+  | .regex false, 91 :: _ => ({ st with mode := .regex true }, 1)
+  | .regex true, 93 :: _ => ({ st with mode := .regex false }, 1)
+  | .regex false, 47 :: _ => ({ st with mode := .code, prev := some 41 }, 1)       -- a finished literal ends an expression
+  | .regex _, b :: _ => if b == 10 || b == 13 then ({ st with mode := .code }, 1) else (st, 1)
+  | .str _, 92 :: 13 :: 10 :: _ => (st, 3)
+  | .str _, 92 :: _ :: _ => (st, 2)
+  | .str .backtick, 36 :: 123 :: _ => ({ st with mode := .code, interp := 0 :: st.interp, prev := none, sawInterp := true }, 2)
+  | .str q, b :: _ =>
+    if b == q.byte then ({ st with mode := .code, prev := some 41 }, 1)
+    else if q != .backtick && (b == 10 || b == 13) then ({ st with mode := .code }, 1)
+    else (st, 1)
+
 /-- Walk a script in which the bytes `{{ v }}` mark Go expressions (zero-width for JavaScript); returns, for
-    each marker in order, whether it is inside a string literal. -/
-def markerFlagsAux (marker : Bytes) : Nat → SrcState → Bytes → List Bool
-  | 0, _, _ => []
-  | _, _, [] => []
+    each marker in order, whether it is inside a string literal, and the final state (which constructs were met). -/
+def markerFlagsAux (marker : Bytes) : Nat → Src → Bytes → List Bool × Src
+  | 0, st, _ => ([], st)
+  | _, st, [] => ([], st)
   | fuel + 1, st, s@(_ :: _) =>
     if List.isPrefixOf marker s then
-      (match st with | .str _ => true | _ => false) :: markerFlagsAux marker fuel st (s.drop marker.length)
+      -- a value stands where the marker is: afterwards an expression has just ended
+      let st' := match st.mode with | .code => { st with prev := some 41 } | _ => st
+      let (fs, fin) := markerFlagsAux marker fuel st' (s.drop marker.length)
+      ((match st.mode with | .str _ => true | _ => false) :: fs, fin)
     else
-      let (st', n) := srcStep st s
+      let (st', n) := step2 st s
       markerFlagsAux marker fuel st' (s.drop (max n 1))
 
-def markerFlags (marker script : Bytes) : List Bool := markerFlagsAux marker (script.length + 1) .code script
+def markerFlags (marker script : Bytes) : List Bool := (markerFlagsAux marker (script.length + 1) {} script).1
+
+/-- Which of the constructs templ's parser does not track occur in the script. -/
+def scriptFeatures (marker script : Bytes) : List String :=
+  let fin := (markerFlagsAux marker (script.length + 1) {} script).2
+  (if fin.sawRegex then ["regex"] else []) ++ (if fin.sawInterp then ["interpolation"] else []) ++
+    (if fin.sawHtmlComment then ["html-comment"] else [])
 
 /-- HTML side of a script element's text: it must not contain `</script` (any case) followed by a tag-name
     delimiter, nor `<!--`. A sufficient check used by the theorems: no `<` at all. -/
